@@ -643,7 +643,7 @@ func TestC17(t *testing.T) {
 			}
 		}
 	}
-	run.Rapid(t, "scripts", ev.Pick(60, 6000), func(rt *rapid.T) {
+	run.Rapid(t, "scripts", ev.Pick(150, 6000), func(rt *rapid.T) {
 		c := genCase(rt)
 		if v := exec(c); v != nil {
 			run.Candidate(v.sig, v.msg, c)
